@@ -109,21 +109,23 @@ theorem hostR_ok (fuel : Nat) :
       unfold createR
       simp only [add_listener_purges_first_eq, if_true, add_listener_purge_expire_now_eq, add_listener_purge_updates_now_eq,
         add_listener_replay_now_eq]
-      obtain ⟨c', ex, he, hs', _, _⟩ := h.2.expire now
+      -- the one clock reading of this creation
+      generalize S.reading now = t
+      obtain ⟨c', ex, he, hs', _, _⟩ := h.2.expire t
       rw [he]
       simp only []
-      have h1 : HostR.OK lower { S with cache := c' } := ⟨h.1, hs'⟩
-      have h2 : HostR.OK lower (if ex.isEmpty = true then { S with cache := c' }
+      have h2 : HostR.OK lower (if ex.isEmpty = true then ({ S with tick := S.tick.map (· + 1), cache := c' } : HostR)
           else completeAllR lower possible true n depth now
-            (updateAllR lower possible depth now (ex.map (fun r => (r, some r)))
-              { S with cache := c', log := S.log ++ [NestEv.purge depth now ex] })) := by
+            (updateAllR lower possible depth t (ex.map (fun r => (r, some r)))
+              { S with tick := S.tick.map (· + 1), cache := c', log := S.log ++ [NestEv.purge depth t ex] })) := by
         split
-        · exact h1
-        · exact ihA depth now _ (updateAllR_ok (possible := possible) (S := { S with cache := c', log := S.log ++ [NestEv.purge depth now ex] }) ⟨h.1, hs'⟩ depth now _)
-      generalize hS2 : (if ex.isEmpty = true then ({ S with cache := c' } : HostR)
+        · exact ⟨h.1, hs'⟩
+        · exact ihA depth now _ (updateAllR_ok (possible := possible)
+            (S := { S with tick := S.tick.map (· + 1), cache := c', log := S.log ++ [NestEv.purge depth t ex] }) ⟨h.1, hs'⟩ depth t _)
+      generalize (if ex.isEmpty = true then ({ S with tick := S.tick.map (· + 1), cache := c' } : HostR)
           else completeAllR lower possible true n depth now
-            (updateAllR lower possible depth now (ex.map (fun r => (r, some r)))
-              { S with cache := c', log := S.log ++ [NestEv.purge depth now ex] })) = S2 at *
+            (updateAllR lower possible depth t (ex.map (fun r => (r, some r)))
+              { S with tick := S.tick.map (· + 1), cache := c', log := S.log ++ [NestEv.purge depth t ex] })) = S2 at *
       rw [h2.1]
       simp only []
       split
